@@ -456,6 +456,10 @@ def rules(ctx):
     # the snapshot was (or will be) taken from - State.put is out-of-place (same rule as C01.R4a / C02.R6)
     from .c01 import state_put_out_of_place
     state_put_out_of_place(ctx, rid="C03.R6", why="the snapshot a rejection restores is taken from (or shares) that tensor: the rejected proposal is kept although u >= exp(-D)")
+    # "a rejected proposal is removed": the revert the samplers call restores every forked entry and refuses to run without a snapshot
+    # (a silent no-op would keep every rejected proposal) - same rule as C02.R3
+    from .c02 import r3_revert_structure
+    r3_revert_structure(ctx, rid="C03.R7", title="State.revert restores the snapshot (full and per-individual branch) and raises when there is none")
     ctx.trust("torch.exp / torch.rand / torch.randn semantics; sympy expand")
 
 
